@@ -29,6 +29,11 @@ func (sc *Scn) refs() map[int]bool {
 					}
 				}
 			}
+			for _, o := range vs.Exec {
+				if o.Nested > 0 {
+					walk(o.Nested - 1)
+				}
+			}
 		}
 		if n.Kind == "flow" {
 			walk(n.Start)
@@ -74,6 +79,11 @@ func compact(sc *Scn) *Scn {
 			}
 		}
 		for vi := range n.Visits {
+			for ai := range n.Visits[vi].Exec {
+				if o := &n.Visits[vi].Exec[ai]; o.Nested > 0 {
+					o.Nested = remap[o.Nested-1] + 1
+				}
+			}
 			for ii := range n.Visits[vi].Items {
 				for ai := range n.Visits[vi].Items[ii].Exec {
 					if o := &n.Visits[vi].Items[ii].Exec[ai]; o.Nested > 0 {
